@@ -102,11 +102,35 @@ def dt_from_spec(s):
         if z is None:
             z = _state['tzstr'][kind] = tz.tzstr(kind[6:])
         return d.replace(tzinfo=z)
+    if kind.startswith('hostcls:'):
+        # a tzinfo class of the host's own (hashable, weakly referencable,
+        # unknown to dateutil), daylight saving from April to September
+        z = _state.setdefault('hostcls', {}).get(kind)
+        if z is None:
+            z = _state['hostcls'][kind] = HostZone(int(kind[8:]))
+        return d.replace(tzinfo=z)
     if kind == 'dateutil':
         z = tz.tzutc() if off == 0 else tz.tzoffset(None, off * 60)
     else:
         z = datetime.timezone(datetime.timedelta(minutes=off))
     return d.replace(tzinfo=z)
+
+
+class HostZone(datetime.tzinfo):
+    def __init__(self, std_minutes):
+        self.std = datetime.timedelta(minutes=std_minutes)
+
+    def dst(self, dt):
+        return datetime.timedelta(hours=1 if 4 <= dt.month <= 9 else 0)
+
+    def utcoffset(self, dt):
+        return self.std + self.dst(dt)
+
+    def tzname(self, dt):
+        return 'HDT' if 4 <= dt.month <= 9 else 'HST'
+
+    def __repr__(self):
+        return 'HostZone(%d)' % (self.std.total_seconds() // 60)
 
 
 class HostDateTime(datetime.datetime):
@@ -225,7 +249,8 @@ def gen_case(seeds, params, index):
         d['off'] = None
     if clause == 'hostzone':
         d['off'] = 0            # placeholder, the zone decides the offset
-        d['tz'] = 'tzstr:' + w.choice(HOSTZONES)
+        d['tz'] = 'tzstr:' + w.choice(HOSTZONES) if w.random() < 0.6 else \
+            'hostcls:%d' % w.choice([-300, 60, 570, -720, 0])
         d['f'][0] = w.randrange(1990, 2040)
         if w.random() < 0.6:
             # near a typical transition date
